@@ -12,6 +12,7 @@ import (
 	"runtime/debug"
 	"strings"
 	"sync"
+	"sync/atomic"
 
 	"github.com/VictoriaMetrics/metrics"
 	"reduction.dev/reduction/dkv/bloom"
@@ -45,6 +46,20 @@ type Table struct {
 	endSeqNum      uint64
 	metadataLoaded bool
 	metadataMu     sync.Mutex // Protects metadataLoaded field and loadFooter calls
+
+	// Set by KeepFile: when this table is garbage collected its file stays. The
+	// flag is shared with the table's cleanup function, which must not refer to
+	// the table itself.
+	keepFile *atomic.Bool
+}
+
+// KeepFile takes the table's file out of the hands of this table's garbage
+// collection: the file is not deleted when the table is collected, whether or
+// not other tables of this process still refer to it. Used when a database
+// instance is abandoned while checkpoints it handed out may still be restored
+// by somebody else.
+func (t *Table) KeepFile() {
+	t.keepFile.Store(true)
 }
 
 // NewTable initializes a new, empty table
@@ -59,14 +74,16 @@ func NewTable(file storage.File) *Table {
 	type CleanupParams struct {
 		deleteFunc func() error
 		uri        string
+		keepFile   *atomic.Bool
 	}
-	params := CleanupParams{deleteFunc: file.CreateDeleteFunc(), uri: file.URI()}
+	t.keepFile = &atomic.Bool{}
+	params := CleanupParams{deleteFunc: file.CreateDeleteFunc(), uri: file.URI(), keepFile: t.keepFile}
 	retainTableFile(params.uri)
 
 	runtime.AddCleanup(t, func(p CleanupParams) {
 		// Another table in this process still uses the file.
 		last, exclusivelyOwns := releaseTableFile(p.uri)
-		if !last {
+		if !last || p.keepFile.Load() {
 			return
 		}
 		deleteUnusedTableFile(p.uri, exclusivelyOwns, p.deleteFunc)
@@ -173,8 +190,11 @@ func NewTableFromDocument(fs storage.FileSystem, dataOwnership kv.DataOwnership,
 		startKey      []byte
 		endKey        []byte
 		uri           string
+		keepFile      *atomic.Bool
 	}
+	t.keepFile = &atomic.Bool{}
 	params := CleanupParams{
+		keepFile:      t.keepFile,
 		deleteFunc:    t.file.CreateDeleteFunc(),
 		dataOwnership: dataOwnership,
 		startKey:      doc.StartKey,
@@ -189,7 +209,7 @@ func NewTableFromDocument(fs storage.FileSystem, dataOwnership kv.DataOwnership,
 	runtime.AddCleanup(t, func(p CleanupParams) {
 		// Another table in this process still uses the file.
 		last, exclusivelyOwns := releaseTableFile(p.uri)
-		if !last {
+		if !last || p.keepFile.Load() {
 			return
 		}
 		deleteUnusedTableFile(p.uri, exclusivelyOwns, p.deleteFunc)
